@@ -19,7 +19,35 @@ TIERS = {"quick": {"worlds": 2000, "wall": 150, "limit": 90.0}, "thorough": {"wo
 GATES = ("nontrivial", "runs.globalized", "runs.deriv_check", "runs.scaled", "fired.total", "evals.checked")
 
 
+def _stiff_row_world(rng, seed, index):
+    """A small convex QP with boxed and free variables that are coupled through the Hessian, and one equality row
+    between free variables whose coefficients are astronomically large (1e100 .. 1e200, finite): J^T(rho c + y)
+    overflows, the right-hand side of the Newton system is not finite and a direct solver answers inf - inf."""
+    import numpy as np
+
+    n = int(rng.integers(3, 6))
+    M = np.round(rng.normal(size=(n, n)), 2)
+    Q = np.round(M @ M.T + np.eye(n), 4)
+    q = np.round(rng.normal(size=n), 2)
+    xl, xu = np.full(n, -gen.INF), np.full(n, gen.INF)
+    nb = int(rng.integers(1, n - 1))
+    for j in range(nb):
+        xl[j], xu[j] = 0.0, float(rng.choice([1.0, 2.5]))
+    s = float(rng.choice([1e100, 1e160, 1e200]))
+    A = np.zeros((1, n))
+    A[0, nb] = s
+    A[0, nb + 1] = -s
+    spec = dict(family="stiff-row", n=n, m=1, Q=Q, q=q, a=np.zeros(n), A=A, B=np.zeros((1, n)), b=np.array([s]), xl=xl, xu=xu, cl=np.zeros(1), cu=np.zeros(1), dom=None, expo=None, policy="fresh", fmt=str(rng.choice(["coo", "csr", "csc"])))
+    x0 = np.clip(np.round(rng.normal(size=n), 2), xl, xu)
+    kw = {"iteration_limit": int(rng.choice([10, 40])), "display_interval": 1e18}
+    if rng.random() < 0.5:
+        kw["step_solver_type"] = str(rng.choice(["Symmetric", "Extended", "Standard", "Asymmetric"]))
+    return gen.base_world(seed, ID, index, spec, x0, np.zeros(1), kw, obs=gen.gen_obs(rng), case={"faulted": False, "pts_seed": 0})
+
+
 def generate(rng, seed, index, tier):
+    if rng.random() < 0.03:
+        return _stiff_row_world(rng, seed, index)
     fam = str(rng.choice(["qp", "nlp", "degenerate", "domain", "infeasible", "saddle"], p=[0.25, 0.25, 0.05, 0.25, 0.05, 0.15]))
     spec, x0, y0 = gen.gen_problem(rng, fam, fixed_prob=0.4)
     x0 = gen.magnify(rng, spec, x0, p=0.1)
